@@ -12,6 +12,10 @@ FILES = ["x.a", "y.b", "x.ab", "*.a", "z"]
 TARGETS = ["T", "t", "U"]
 EP_LANGS = [{"name": "EpL", "pattern": "*.a", "src": ["F", 90], "tag": 900}, {"name": "Ep2", "pattern": None, "src": ["I", 91], "tag": 901}]
 EP_GENS = [{"lang": "any", "target": "t", "tag": 950}, {"lang": "EpL", "target": "U", "tag": 951}]
+# entry points with a duplicate name (case-insensitively): discovery registers the ones before it and raises
+EP_LANGS_DUP = EP_LANGS + [{"name": "epl", "pattern": "*.b", "src": ["I", 92], "tag": 902}, {"name": "Ep3", "pattern": "*.a", "src": ["F", 93], "tag": 903}]
+EP_GENS_DUP = EP_GENS + [{"lang": "ANY", "target": "T", "tag": 952}, {"lang": "Lb", "target": "T", "tag": 953}]
+EP_SETS = {0: ([], []), 1: (EP_LANGS, EP_GENS), 2: (EP_LANGS_DUP, EP_GENS_DUP), 3: (EP_LANGS_DUP, EP_GENS), 4: (EP_LANGS, EP_GENS_DUP)}
 
 
 def rand_op(r, tagc):
@@ -100,6 +104,8 @@ Open Scope string_scope.
 %s
 Definition epl : list ldesc := %s.
 Definition epg : list gdesc := %s.
+Definition epl_dup : list ldesc := %s.
+Definition epg_dup : list gdesc := %s.
 Definition show_mm (m : mm) : string := match m with MMInst i => "M:i" ++ show_nat i
   | MMFresh f s kw => "M:f" ++ show_nat f ++ "." ++ show_nat s ++ "." ++ show_bool kw end.
 Definition show_res (r : result) : string := match r with
@@ -108,23 +114,33 @@ Definition show_res (r : result) : string := match r with
   | RGen d => "G" ++ show_nat (gtag d) | RGens l => "Gs[" ++ sjoin "," (map (fun d => show_nat (gtag d)) l) ++ "]"
   | RMM m => show_mm m | RMMs l => "Ms[" ++ sjoin "," (map show_mm l) ++ "]" | RCrash => "EXC:TypeError" end.
 Definition go (ops : list op) : string := sjoin " " (map show_res (run fnm epl epg init ops)).
-""" % (fnm, core.coq_list([c_ld(d) for d in EP_LANGS]), core.coq_list([c_gd(d) for d in EP_GENS]))
+Definition gow (l : list ldesc) (g : list gdesc) (ops : list op) : string := sjoin " " (map show_res (run fnm l g init ops)).
+""" % (fnm, core.coq_list([c_ld(d) for d in EP_LANGS]), core.coq_list([c_gd(d) for d in EP_GENS]),
+       core.coq_list([c_ld(d) for d in EP_LANGS_DUP]), core.coq_list([c_gd(d) for d in EP_GENS_DUP]))
 
 
 # ---- documented behaviour (property oracle, independent of the Coq model)
 def oracle(case):
+    """Documented behaviour, written independently of the Coq model: case-insensitive maps that refuse
+    duplicates; discovery of the entry points happens on the first use after start / clearing; when two
+    entry points collide, that first use reports the registration error and the map keeps the entry points
+    discovered before the collision."""
     def load_l():
         t = {}
         for d in case["ep_langs"]:
-            t.setdefault(d["name"].lower(), d)
-        return t
+            if d["name"].lower() in t:
+                return t, True
+            t[d["name"].lower()] = d
+        return t, False
 
     def load_g():
         t = {}
         for d in case["ep_gens"]:
-            t.setdefault((d["lang"].lower(), d["target"].lower()), d)
-        return t
-    L, G, C = load_l(), load_g(), {}
+            if (d["lang"].lower(), d["target"].lower()) in t:
+                return t, True
+            t[(d["lang"].lower(), d["target"].lower())] = d
+        return t, False
+    (L, Lbad), (G, Gbad), C = load_l(), load_g(), {}
     serial = 0
     out = []
 
@@ -148,8 +164,19 @@ def oracle(case):
             serial += 1
             return None
         return C[k]
+    LANG_OPS = ("RegLang", "LangDescription", "LangsForFile", "LangForFile", "MMForFile", "MMsForFile", "LangDescs")
+    GEN_OPS = ("RegGen", "GenDescription", "GenDescs")
     for o in case["ops"]:
         k = o["op"]
+        uses_l = k in LANG_OPS or (k == "MMForLang" and (o["kw"] or o["n"].lower() not in C))
+        if uses_l and Lbad:
+            Lbad = False
+            out.append("err")
+            continue
+        if k in GEN_OPS and Gbad:
+            Gbad = False
+            out.append("err")
+            continue
         if k == "RegLang":
             key = o["d"]["name"].lower()
             if key in L:
@@ -158,7 +185,7 @@ def oracle(case):
                 L[key] = o["d"]
                 r = "ok"
         elif k == "ClearLangs":
-            L, C = load_l(), {}
+            (L, Lbad), C = load_l(), {}
             r = "ok"
         elif k == "RegGen":
             key = (o["d"]["lang"].lower(), o["d"]["target"].lower())
@@ -168,7 +195,7 @@ def oracle(case):
                 G[key] = o["d"]
                 r = "ok"
         elif k == "ClearGens":
-            G = load_g()
+            G, Gbad = load_g()
             r = "ok"
         elif k == "LangDescription":
             r = "L%d" % L[o["n"].lower()]["tag"] if o["n"].lower() in L else "err"
@@ -214,14 +241,19 @@ def run(chk):
     depth = 3 if chk.thorough else 2
     sub = alpha if not chk.thorough else [alpha[i] for i in (0, 1, 3, 4, 6, 7, 9, 10, 12, 13, 14, 15, 16, 17, 18)]
     for seq in itertools.product(sub, repeat=depth):
-        cases.append({"ops": list(seq), "ep_langs": EP_LANGS, "ep_gens": EP_GENS, "kind": "enum"})
+        cases.append({"ops": list(seq), "ep_langs": EP_LANGS, "ep_gens": EP_GENS, "eps": 1, "kind": "enum"})
+    # entry points with colliding names: every pair of operations, and every triple after a clearing
+    dup_alpha = [alpha[i] for i in (0, 3, 4, 5, 6, 9, 10, 12, 13, 14, 16, 17, 18, 19, 20)]
+    for seq in itertools.product(dup_alpha, repeat=2):
+        cases.append({"ops": list(seq) + [{"op": "LangDescs"}, {"op": "GenDescs"}], "ep_langs": EP_LANGS_DUP, "ep_gens": EP_GENS_DUP, "eps": 2, "kind": "enum-dup"})
     nrand = 3000 if chk.thorough else 400
     for i in range(nrand):
         r = chk.rng.split(i)
         tagc = [0]
         n = r.range(3, 14)
-        eps = (EP_LANGS, EP_GENS) if r.chance(0.8) else ([], [])
-        cases.append({"ops": [rand_op(r, tagc) for _ in range(n)], "ep_langs": eps[0], "ep_gens": eps[1], "kind": "random"})
+        k = r.weighted([(1, 12), (0, 2), (2, 3), (3, 2), (4, 1)])
+        eps = EP_SETS[k]
+        cases.append({"ops": [rand_op(r, tagc) for _ in range(n)], "ep_langs": eps[0], "ep_gens": eps[1], "eps": k, "kind": "random" if k < 2 else "random-dup"})
     chunks = [cases[i::core.NPROC] for i in range(core.NPROC)]
     chunks = [c for c in chunks if c]
     outs = core.run_impl_parallel("c26", [{"cases": ch} for ch in chunks])
@@ -233,17 +265,18 @@ def run(chk):
     exprs = []
     for c in cases:
         ops = core.coq_list([c_op(o) for o in c["ops"]])
-        if c["ep_langs"]:
+        if c["eps"] == 1:
             exprs.append("go %s" % ops)
         else:
-            exprs.append("sjoin \" \" (map show_res (run fnm [] [] init %s))" % ops)
+            exprs.append("gow %s %s %s" % ({0: "[]", 1: "epl", 2: "epl_dup", 3: "epl_dup", 4: "epl"}[c["eps"]],
+                                           {0: "[]", 1: "epg", 2: "epg_dup", 3: "epg", 4: "epg_dup"}[c["eps"]], ops))
     vals, errs = core.coq_eval("C26", imports(), exprs, shard=300)
     disagreements, failures = [], []
     if errs:
         disagreements.append({"case": "coq evaluation", "model": errs[:2]})
     for c, mv in zip(cases, vals):
         o = impl[id(c)]
-        key = json.dumps([c["ops"], bool(c["ep_langs"])], sort_keys=True)
+        key = json.dumps([c["ops"], c["eps"]], sort_keys=True)
         lookups_after_mut = any(x["op"] in ("RegLang", "RegGen", "ClearLangs", "ClearGens") for x in c["ops"][:-1]) and \
             any(x["op"] not in ("RegLang", "RegGen", "ClearLangs", "ClearGens") for x in c["ops"][1:])
         chk.count(key, nontrivial=lookups_after_mut)
@@ -251,16 +284,16 @@ def run(chk):
         for r in o:
             chk.stat("result:" + (r.split("[")[0].rstrip("0123456789") if not r.startswith("M:") else "M"))
         if mv is not None and " ".join(o) != mv:
-            disagreements.append({"case": c["ops"], "impl": o, "model": mv})
+            disagreements.append({"case": c["ops"], "entry_points": c["eps"], "impl": o, "model": mv})
         doc = oracle(c)
         if o != doc:
             i = next(i for i, (a, b) in enumerate(zip(o, doc)) if a != b)
-            failures.append({"case": {"ops": c["ops"], "entry_points": bool(c["ep_langs"])}, "impl": o, "model": doc,
+            failures.append({"case": {"ops": c["ops"], "entry_points": c["eps"], "ep_langs": c["ep_langs"], "ep_gens": c["ep_gens"]}, "impl": o, "model": doc,
                              "what": "step %d (%s) answered %s, a case-insensitive map answers %s" % (i, c["ops"][i]["op"], o[i], doc[i]), "tags": []})
         if chk.cov["evaluations"] % 400 == 7:
             chk.sample({"ops": c["ops"], "results": o})
     chk.cov["rule"] = ("all operation sequences of length %d over a %d-operation alphabet (case variants of 3 names, entry-point names, patterns incl. None, kwargs on/off) plus %d random "
-                       "sequences of length 3-14 over 13 operation kinds, with a faked entry-point set (present or empty); non-trivial = a lookup/metamodel request follows a mutation; "
+                       "sequences of length 3-14 over 13 operation kinds, with a faked entry-point set (present, empty, or containing colliding language / generator names, so that discovery fails on first use), plus all pairs over a 15-operation alphabet under colliding entry points; non-trivial = a lookup/metamodel request follows a mutation; "
                        "distinct by operation sequence" % (depth, len(sub), nrand))
     chk.cov["exhaustive"] = False
     chk.assumptions += ["fnmatch.fnmatch is an oracle (table computed by Python for the file/pattern universe)",
